@@ -728,6 +728,15 @@ def tie_explains(sc, a, b, run=None):
                     and abs(round(liab, 2) - liab) < 1e-9:
                 return True
     if run is not None:
+        # an exposure that equals its limit exactly: the control adds an UNROUNDED float product ((price - 1) x size) to rounded
+        # figures and compares with `>`; 5.91 - 0.91 is 5.000000000000001 and the order is refused where exact arithmetic
+        # accepts it (a refusal at equality is on the safe side of C01). Witness: the control's own message reports a potential
+        # exposure that, to the penny, IS the limit
+        for o, msg in getattr(run, "control_errors", []):
+            m = re.search(r"exposure \((-?[0-9.]+)\) is greater than strategy\.max_\w+ \((-?[0-9.]+)\)", msg or "")
+            if m and abs(float(m.group(1)) - float(m.group(2))) < 0.005:
+                return True
+    if run is not None:
         # a starting-price LAY is sized liability / (sp - 1), rounded to 2dp by the code: at an exact half-penny tie the
         # binary value decides (round(1.425, 2) == 1.43) where exact half-even gives 1.42
         for o in run.orders:
